@@ -46,16 +46,18 @@ MATS = {
 CRYS = {  # name: interstitial tuple
     'FCC': (), 'HCP': (), 'B2AB': (), 'FCC_O': (1,),
     'B2AB+anti': (),      # B2AB with antisites (the other host species on a host site) as a fourth defect kind
+    'FCC+2s': (), 'HCP+2s': (),   # TWO substitutional solute species, not named (both carry the default label '')
 }
 QUICK = [('FCC', 'I'), ('FCC', '2I'), ('FCC', 'd2rot'), ('FCC', 'd2hnf'), ('FCC', 'd3hnf'), ('FCC', 'd4cub'),
          ('HCP', 'I'), ('HCP', 'd2hnf'), ('HCP', 'd3hex'), ('HCP', 'dm2'),
          ('B2AB', 'I'), ('B2AB', 'd2rot'), ('B2AB', 'd3hnf'), ('B2AB', 'd4hnf'),
-         ('FCC_O', 'I'), ('FCC_O', 'd2rot'), ('FCC_O', 'd3hnf'), ('FCC_O', 'd4cub')]
+         ('FCC_O', 'I'), ('FCC_O', 'd2rot'), ('FCC_O', 'd3hnf'), ('FCC_O', 'd4cub'),
+         ('FCC+2s', 'd3hnf'), ('FCC+2s', 'd4cub'), ('HCP+2s', 'd2hnf')]
 THOROUGH = QUICK + [('FCC', 'dm2'), ('FCC', 'd3hex'), ('FCC', 'd4hnf'),
                     ('HCP', 'd2rot'), ('HCP', 'd3hnf'), ('HCP', 'd4hnf'), ('HCP', 'd4cub'),
                     ('B2AB', '2I'), ('B2AB', 'd2hnf'), ('B2AB', 'dm2'), ('B2AB', 'd4cub'),
                     ('FCC_O', '2I'), ('FCC_O', 'd2hnf'), ('FCC_O', 'dm2'), ('FCC_O', 'd4hnf'),
-                    ('B2AB+anti', 'I'), ('B2AB+anti', 'd2rot'), ('B2AB+anti', 'd3hnf')]
+                    ('B2AB+anti', 'I'), ('B2AB+anti', 'd2rot'), ('B2AB+anti', 'd3hnf'), ('FCC+2s', '2I'), ('HCP+2s', 'd3hex')]
 BLOCK = {'quick': 12, 'thorough': 12}
 LONG_MENU = ('identity', 'reverse', 'rotate', 'swap01')   # for species lists longer than 3 entries
 MAXV = 4                                                 # violations reported per oracle per case
@@ -64,7 +66,7 @@ MAXV = 4                                                 # violations reported p
 def BOUNDS(tier):
     confs = QUICK if tier == 'quick' else THOROUGH
     return {'configs': ['{}:{}'.format(c, m) for c, m in confs], 'matrices': {m: MATS[m] for _, m in confs},
-            'max_defects': 2, 'defect_kinds': ['vacancy on host site', 'solute (Nsolute=1) on host site',
+            'max_defects': 2, 'defect_kinds': ['vacancy on host site', 'solute (Nsolute=1; configs named +2s: two unnamed solute species) on host site',
                                                 'interstitial species on interstitial site',
                                                 'antisite (configs named +anti only)'],
             'pairs': 'all ordered pairs (A, B), no cut applied',
@@ -76,8 +78,9 @@ def BOUNDS(tier):
 # --------------------------------------------------------------------------- enumeration
 def build(cname, mname):
     crys = catalog.get(cname.split('+')[0])
-    sup = supercell.Supercell(crys, np.array(MATS[mname], dtype=int), interstitial=CRYS[cname], Nsolute=1)
+    sup = supercell.Supercell(crys, np.array(MATS[mname], dtype=int), interstitial=CRYS[cname], Nsolute=2 if cname.endswith('+2s') else 1)
     sup.antisites = cname.endswith('+anti')
+    sup.nsol = 2 if cname.endswith('+2s') else 1
     return sup
 
 
@@ -89,7 +92,8 @@ def defect_alphabet(sup):
         c = sup.atomindices[n % sup.N][0]
         if c in sup.interstitial: out.append((n, c))
         else:
-            out.append((n, -1)); out.append((n, sup.crys.Nchem))
+            out.append((n, -1))
+            out.extend((n, sup.crys.Nchem + k) for k in range(getattr(sup, 'nsol', 1)))
             if getattr(sup, 'antisites', False):
                 out.extend((n, c2) for c2 in range(sup.crys.Nchem) if c2 != c and c2 not in sup.interstitial)
     return out
@@ -106,7 +110,7 @@ def occupations(sup):
 
 def describe(sup, defects):
     if not defects: return 'perfect'
-    name = lambda n, c: ('v' if c == -1 else 'i' if c in sup.interstitial else 's' if c >= sup.crys.Nchem else 'a') + '@{}'.format(n)
+    name = lambda n, c: ('v' if c == -1 else 'i' if c in sup.interstitial else ('s' if c == sup.crys.Nchem else 's{}'.format(c - sup.crys.Nchem)) if c >= sup.crys.Nchem else 'a') + '@{}'.format(n)
     return '+'.join(name(n, c) for n, c in defects)
 
 
